@@ -658,6 +658,14 @@ func main() {
 				// keep only sequences with exactly one COMPACT followed (later) by exactly one COMMIT, at least
 				// one W before the COMMIT (non-trivial)
 				nc, nm, posC, posM, wBefore := 0, 0, -1, -1, false
+				if L == 6 {
+					// length 6 (thorough, Compact2 only): alphabet without D(k1), or the part alone takes 20 minutes of fsyncs
+					for i := 0; i < L; i++ {
+						if letters[idx[i]].kind == "D" && letters[idx[i]].k == 1 {
+							nc = 99
+						}
+					}
+				}
 				for i := 0; i < L; i++ {
 					switch letters[idx[i]].kind {
 					case "COMPACT":
@@ -716,11 +724,11 @@ func main() {
 		t.close()
 		r.Count(fmt.Sprintf("exhaustive_histories_algo%d", algo), int64(run))
 	}
-	r.Note("exhaustive", fmt.Sprintf("all op sequences of length <=%d over letters {W(k0,nonempty),W(k0,empty),D(k0),W(k1),D(k1),COMPACT,COMMIT} that contain exactly one COMPACT before exactly one COMMIT and a write before the commit; both algorithms (Compact: one op shorter)", maxLen))
+	r.Note("exhaustive", fmt.Sprintf("all op sequences of length <=%d over letters {W(k0,nonempty),W(k0,empty),D(k0),W(k1),D(k1),COMPACT,COMMIT} that contain exactly one COMPACT before exactly one COMMIT and a write before the commit; both algorithms (Compact: one op shorter; length 6 without the letter D(k1))", maxLen))
 
 	lap("exhaustive")
 	// ---- random phased histories
-	nh := r.Pick(120, 1000)
+	nh := r.Pick(120, 600)
 	volTtls := []string{"", "1m", "3h"}
 	needleTtls := []string{"", "", "1m", "3h"}
 	tss := []string{"zero", "past", "now"}
